@@ -688,6 +688,15 @@ func (s *storage) append(br blob.SizedRef, r io.Reader) error {
 
 	// to be able to undo the append
 	origOffset := s.size
+	undo := func() {
+		if _, seekErr := s.writer.Seek(origOffset, io.SeekStart); seekErr != nil {
+			log.Printf("ERROR seeking back to the original offset: %v", seekErr)
+		} else if truncErr := s.writer.Truncate(origOffset); truncErr != nil {
+			log.Printf("ERROR truncating file after append error: %v", truncErr)
+		} else {
+			s.size = origOffset
+		}
+	}
 
 	fn := s.writer.Name()
 	n, err := fmt.Fprintf(s.writer, "[%v %v]", br.Ref.String(), br.Size)
@@ -695,6 +704,9 @@ func (s *storage) append(br blob.SizedRef, r io.Reader) error {
 	writeVar.Add(fn, int64(n))
 	writeTotVar.Add(s.root, int64(n))
 	if err != nil {
+		// Don't leave a partial record behind (e.g. disk full): it
+		// would make the pack unreadable for a later reindex.
+		undo()
 		return err
 	}
 
@@ -714,12 +726,15 @@ func (s *storage) append(br blob.SizedRef, r io.Reader) error {
 	writeVar.Add(fn, int64(n))
 	writeTotVar.Add(s.root, int64(n))
 	if err != nil {
+		undo()
 		return err
 	}
 	if n2 != int64(br.Size) {
+		undo()
 		return fmt.Errorf("diskpacked: written blob size %d didn't match size %d", n, br.Size)
 	}
 	if err = s.writer.Sync(); err != nil {
+		undo()
 		return err
 	}
 
@@ -728,13 +743,7 @@ func (s *storage) append(br blob.SizedRef, r io.Reader) error {
 	// undo below must act on the pack the blob was written to.
 	err = s.index.Set(br.Ref.String(), blobMeta{packIdx, offset, br.Size}.String())
 	if err != nil {
-		if _, seekErr := s.writer.Seek(origOffset, io.SeekStart); seekErr != nil {
-			log.Printf("ERROR seeking back to the original offset: %v", seekErr)
-		} else if truncErr := s.writer.Truncate(origOffset); truncErr != nil {
-			log.Printf("ERROR truncating file after index error: %v", truncErr)
-		} else {
-			s.size = origOffset
-		}
+		undo()
 		return err
 	}
 	if s.size > s.maxFileSize {
